@@ -199,11 +199,11 @@ func (e *Enc) refBound(c string, t types.Type, st *State) {
 	a := e.get(st, e.allocKey())
 	switch t.Underlying().(type) {
 	case *types.Pointer, *types.Map:
-		e.assert(fmt.Sprintf("(<= %s %s)", c, a))
+		e.fact(fmt.Sprintf("(<= %s %s)", c, a))
 	case *types.Slice:
-		e.assert(fmt.Sprintf("(<= (sbase %s) %s)", c, a))
+		e.fact(fmt.Sprintf("(<= (sbase %s) %s)", c, a))
 	case *types.Interface:
-		e.assert(fmt.Sprintf("(=> ((_ is VRef) %s) (<= (vid %s) %s))", c, c, a))
+		e.fact(fmt.Sprintf("(=> ((_ is VRef) %s) (<= (vid %s) %s))", c, c, a))
 	}
 }
 
@@ -316,6 +316,14 @@ func (e *Enc) havocLoop(li *loopInfo) {
 				} else {
 					ns.m[k] = v
 				}
+			}
+		}
+		// writer ghosts survive a havoc-all loop unless the loop passes a writer to some call
+		for _, k := range writerGhosts {
+			if v, ok := old.m[k]; ok && e.pass != 1 && !li.mods[k] {
+				ns.m[k] = v
+			} else if _, known := e.compSort[k]; known && e.pass != 1 && !li.mods[k] {
+				ns.m[k] = e.get(old, k)
 			}
 		}
 		e.st = ns
